@@ -239,8 +239,20 @@ def make_layout(rng, volumes=None, home_own_volume=None, uid=None, xdg=None,
     if trash_volumes_env is None:
         trash_volumes_env = rng.random() < 0.3
     if trash_volumes_env:
-        L.env['TRASH_VOLUMES'] = ':'.join('@/' + m if m else '@'
-                                          for m in L.mounts)
+        items = ['@/' + m if m else '@' for m in L.mounts]
+        if rng.random() < 0.3:
+            # a list as users (and mount tables) produce them: a volume named
+            # twice, trailing slashes, any order
+            items = items + [rng.choice(items)]
+            items = [x + '/' if rng.random() < 0.3 else x for x in items]
+            rng.shuffle(items)
+        L.env['TRASH_VOLUMES'] = ':'.join(items)
+    if len(L.mounts) > 1 and rng.random() < 0.15:
+        # the table of mounted file systems lists a mount point twice (two
+        # devices / bind mounts on one directory) and in no particular order
+        order = list(L.mounts) + [rng.choice(L.mounts)]
+        rng.shuffle(order)
+        L.extra['partition_order_rel'] = order
     L.cwd = L.home
     return L
 
